@@ -22,3 +22,15 @@ func CheckSlotSpan(slotAfter func(delta time.Duration) common.Slot, slot common.
 	}
 	return nil
 }
+
+// SyncCommitteeForSlot returns the sync committee whose members sign in the given slot,
+// from the epochs context of a state at that slot. Committees assigned to a slot sign for the previous slot:
+// in the last slot of a sync committee period it is the next sync committee that signs,
+// see compute_subnets_for_sync_committee and get_sync_subcommittee_pubkeys in the Altair validator spec.
+func SyncCommitteeForSlot(spec *common.Spec, epc *common.EpochsContext, slot common.Slot) *common.IndexedSyncCommittee {
+	period := spec.EPOCHS_PER_SYNC_COMMITTEE_PERIOD
+	if spec.SlotToEpoch(slot)/period == spec.SlotToEpoch(slot+1)/period {
+		return epc.CurrentSyncCommittee
+	}
+	return epc.NextSyncCommittee
+}
